@@ -1426,6 +1426,20 @@ fn run_c02(args: &Args, out: &mut Out) {
             }
         }
     }
+    // 2b. the concrete transaction types check their #[canonical(prefix)] themselves
+    for kind in 0..6usize {
+        let tx = gen_tx_kind(&mut rng, kind, false);
+        let ty: &'static str = ["Script", "Create", "Mint", "Upgrade", "Upload", "Blob"][kind];
+        let b = tx.to_bytes();
+        c02_case(out, ty, b.clone(), "valid", false, model);
+        for v in [0u64, 1, 2, 3, 4, 5, 6, u64::MAX] {
+            let mut x = b.clone();
+            x[..8].copy_from_slice(&v.to_be_bytes());
+            c02_case(out, ty, x, "prefix", false, model);
+        }
+        c02_case(out, ty, b[..4].to_vec(), "prefix", false, model);
+        mutate_words(out, &mut rng, ty, &b, args.scale(6, 60), model);
+    }
     // 3. policy bits 6..31 and values above u32::MAX inside a transaction
     {
         let tx: Transaction = Transaction::script(0, vec![], vec![], Policies::new().with_maturity(7.into()).with_expiration(9.into()), vec![], vec![], vec![]).into();
@@ -1531,10 +1545,12 @@ fn main() {
     match args.prop.as_str() {
         "C01" => {
             run_c01(&args, &mut out);
+            Rng::new(args.seed ^ 0x5AFE).shuffle(&mut out.cases); // balance the model shards
             out.write(&args, header, "enc_case", "bad_enc");
         }
         "C02" => {
             run_c02(&args, &mut out);
+            Rng::new(args.seed ^ 0x5AFE).shuffle(&mut out.cases);
             out.write(&args, header, "dec_case", "bad_dec");
         }
         p => {
